@@ -135,6 +135,43 @@ fn layer1_pair(pats: &[&str], o: &Opts, acc: &mut L1) {
             }
         }
     }
+    // (c) candidate literals never pass over a matching line (the literal
+    // prefilter may not drop a line): language inclusion, as in C11 (d), but
+    // confirmed end to end on the real searcher (fast path vs slow path)
+    if let (Some(lits), true) = (real.verif_inner_literals(), matches!(o.lt, Lt::Lf | Lt::Crlf)) {
+        let lit_hir = regex_syntax::hir::Hir::alternation(lits.iter().map(|l| regex_syntax::hir::Hir::literal(l.clone())).collect());
+        if let Ok(d_l) = auto::build(&lit_hir) {
+            let term = o.term_bytes();
+            let al = auto::reps(&[&d_final, &d_l], &term, &[]);
+            if let (Some(s1), Some(s2)) = (d_final.start(false, None), d_l.start(false, None)) {
+                let ex = auto::product_bfs(
+                    &[&d_final, &d_l],
+                    &[s1, s2],
+                    &al,
+                    &[vec![(vec![], true), (vec![], true)]],
+                    &|_, _| true,
+                    &|_, f| if f[0] && !f[1] { Some("the line matches but contains none of the candidate literals".into()) } else { None },
+                    0,
+                );
+                acc.stats.add(&ex.stats);
+                if let Some(w) = ex.witness {
+                    acc.replays += 1;
+                    let mut input = w.line.clone();
+                    input.push(term[0]);
+                    let fast = searcher_lines(&real, o, &input, false, false, 0);
+                    let slow = searcher_lines(&real, o, &input, true, false, 0);
+                    match (fast, slow) {
+                        (Ok(f), Ok(s)) if f != s => acc.disc.push((None, key("literal-prefilter-drops-line"), json!({
+                            "kind": "fast-vs-slow", "patterns": pats, "opts": c11::opts_json(o), "input": esc(&input),
+                            "fast_path_lines": f, "slow_path_lines": s, "model": w.what,
+                            "literals": lits.iter().map(|l| esc(l)).collect::<Vec<_>>(),
+                        }))),
+                        _ => acc.drift.push(key(&format!("literal inclusion witness {:?} not confirmed by the real searcher", esc(&w.line)))),
+                    }
+                }
+            }
+        }
+    }
     // (b) fast path (regex run inside the buffer) == slow path (regex run on
     // the stripped line). Only when no candidate literals are used (candidate
     // lines are re-verified on the stripped line) and the fast path applies.
@@ -245,7 +282,7 @@ const L2_PATTERNS: &[&str] = &[
     "a", "b", "-", "é", "", "a*", "b+", "a?", "ab", "a|b", "a|", "^", "$", "^$", "^a", "a$", "\\b", "\\B", "\\ba", "a\\b", ".", "..", ".*", ".+",
     "\\w", "\\W", "\\s", "\\S", "[ab]", "[^a]", "[^ab]", "[a\\n]", "[^\\n]", "\\w+b\\w", "\\w+ab", "a.b", "(a|b)-", "-(a|b)", "a{2}", "(?:a|é)b",
     "\\x{FF}", "[^-]+$", "^[^-]", "a*$", "^b*", "\\S+\\s", "\\s$", "^\\s", "b?-", "(?i)A", "A", "é|a", ".$", "^.", "-$", "\\B-", "-\\B", "\\b-", "x*",
-    "\\r", "a\\r?$",
+    "\\r", "a\\r?$", "\\bab{0,2}-", "\\w+a{0,2}b", "\\ba{2}b",
 ];
 
 #[derive(Default)]
